@@ -92,9 +92,7 @@ pub fn run(ctx: &Ctx) -> Report {
                 }
             }
         });
-        if sample_key(seed, i) < (1u64 << 50) {
-            acc.sample(sample_key(seed, i), json!({"tree": hx(&s)}));
-        }
+        acc.maybe_sample(sample_key(seed, i), || json!({"tree": hx(&s)}));
     });
     rep.absorb(acc);
     // 2. atoms at every length-prefix boundary, alone and as children
